@@ -322,6 +322,18 @@ fn input_snippet(
 
         let error_line = num >= start_line.0 as usize && num <= end_line.0 as usize;
         let arrow = error_line && missing_arrow;
+
+        // the columns are byte offsets. a range may end on a multi-byte character, or past the
+        // end of this line (on its line break, or at the very end of the input), so they are
+        // moved to the nearest character boundaries inside the line before slicing
+        let col_start = floor_char_boundary(file_line, start_col.0 as usize);
+        let col_end = ceil_char_boundary(file_line, end_col.0 as usize + 1);
+        let (col_start, col_end) = if num == start_line.0 as usize && num == end_line.0 as usize {
+            (col_start, col_end.max(col_start))
+        } else {
+            (col_start, col_end)
+        };
+
         let file_line = match (num == start_line.0 as usize, num == end_line.0 as usize) {
             (true, true) => {
                 if arrow {
@@ -330,11 +342,11 @@ fn input_snippet(
                     format!(
                         "{}{}{}{}{}{}",
                         ansi_reset,
-                        &file_line[..start_col.0 as usize],
+                        &file_line[..col_start],
                         ansi_err,
-                        &file_line[start_col.0 as usize..end_col.0 as usize + 1],
+                        &file_line[col_start..col_end],
                         ansi_reset,
-                        &file_line[end_col.0 as usize + 1..],
+                        &file_line[col_end..],
                     )
                 }
             }
@@ -342,18 +354,18 @@ fn input_snippet(
                 format!(
                     "{}{}{}{}",
                     ansi_reset,
-                    &file_line[..start_col.0 as usize],
+                    &file_line[..col_start],
                     ansi_err,
-                    &file_line[start_col.0 as usize..]
+                    &file_line[col_start..]
                 )
             }
             (false, true) => {
                 format!(
                     "{}{}{}{}",
                     ansi_err,
-                    &file_line[..end_col.0 as usize + 1],
+                    &file_line[..col_end],
                     ansi_reset,
-                    &file_line[end_col.0 as usize + 1..]
+                    &file_line[col_end..]
                 )
             }
             (false, false) if error_line => format!("{}{}", ansi_err, file_line),
@@ -387,6 +399,22 @@ fn input_snippet(
     }
 
     lines.push(String::new());
+}
+
+fn floor_char_boundary(s: &str, idx: usize) -> usize {
+    let mut idx = idx.min(s.len());
+    while !s.is_char_boundary(idx) {
+        idx -= 1;
+    }
+    idx
+}
+
+fn ceil_char_boundary(s: &str, idx: usize) -> usize {
+    let mut idx = idx.min(s.len());
+    while !s.is_char_boundary(idx) {
+        idx += 1;
+    }
+    idx
 }
 
 // count the digits in a number e.g.
